@@ -2,6 +2,7 @@
 import fractions
 import json
 import math
+import re
 import os
 import random
 import sys
@@ -333,7 +334,8 @@ def _record_violation(res, h, params, v, known, replay_dir):
     v = dict(v, property=h.prop, harness=h.name, params=params)
     for k in known:
         if k.get("property") == h.prop and k.get("harness") == h.name and \
-                v["obligation"].startswith(k.get("obligation", "")):
+                v["obligation"].startswith(k.get("obligation", "")) and \
+                (not k.get("obligation_re") or re.search(k["obligation_re"], v["obligation"])):
             try:
                 if known_pred(k, v["inputs"], params):
                     v["known"] = k.get("what", "")
